@@ -219,28 +219,50 @@ func c08R3R4(c *Ctx, r *Report) {
 			"dominated by _addToCache(change)", "RemoveSkipped is reachable without first adding the late entry to the cache: a reader could observe the low sequence advanced past an entry that is not yet cached")
 	}
 
-	// R4
+	// R4 — the duplicate check may live in processEntry itself or in a boolean helper it calls (a helper that reports 'duplicate';
+	// the rule then checks the helper's verdicts and that processEntry honours them)
 	recvF := c.Field("db.changeCache", "receivedSeqs")
-	var inserts []ssa.Instruction
-	var lookups []*ssa.Lookup
-	EachInstr(fn, false, func(in ssa.Instruction) {
-		switch x := in.(type) {
-		case *ssa.MapUpdate:
-			if f, _ := fieldRead(x.Map); f != nil && f == recvF {
-				inserts = append(inserts, x)
+	find := func(f *ssa.Function) (ins []ssa.Instruction, lks []*ssa.Lookup) {
+		EachInstr(f, false, func(in ssa.Instruction) {
+			switch x := in.(type) {
+			case *ssa.MapUpdate:
+				if fl, _ := fieldRead(x.Map); fl != nil && fl == recvF {
+					ins = append(ins, x)
+				}
+			case *ssa.Lookup:
+				if fl, _ := fieldRead(x.X); fl != nil && fl == recvF && x.CommaOk {
+					lks = append(lks, x)
+				}
 			}
-		case *ssa.Lookup:
-			if f, _ := fieldRead(x.X); f != nil && f == recvF && x.CommaOk {
-				lookups = append(lookups, x)
+		})
+		return
+	}
+	host := fn
+	inserts, lookups := find(fn)
+	var notDup []Edge // edges of processEntry on which the helper said 'not a duplicate'
+	if len(inserts) == 0 && len(lookups) == 0 {
+		EachInstr(fn, false, func(in ssa.Instruction) {
+			call, ok := in.(*ssa.Call)
+			if !ok || host != fn {
+				return
 			}
-		}
-	})
+			cal := call.Call.StaticCallee()
+			if cal == nil || cal.Parent() != nil || !c.InScope(cal) || cal.Signature.Results().Len() != 1 || !isBoolType(cal.Signature.Results().At(0).Type()) {
+				return
+			}
+			if i2, l2 := find(cal); len(i2) > 0 && len(l2) > 0 {
+				host, inserts, lookups = cal, i2, l2
+				_, neg := EdgesOnValue(fn, func(v ssa.Value) bool { return v == ssa.Value(call) })
+				notDup = neg
+			}
+		})
+	}
 	if len(inserts) == 0 || len(lookups) == 0 {
 		r.Fail("C08-R4", "fn=(*db.changeCache).processEntry receivedSeqs membership+insert", c.Pos(fn.Pos()), "the pending-duplicate check (lookup + insert on receivedSeqs) was not found")
 		return
 	}
-	// miss edges of lookup's ok
-	missEdges := EdgesWhere(fn, func(cond ssa.Value) (bool, bool) {
+	// miss edges of lookup's ok (in the host of the check)
+	missEdges := EdgesWhere(host, func(cond ssa.Value) (bool, bool) {
 		v, pos := BoolTest(cond)
 		if e, ok := v.(*ssa.Extract); ok && e.Index == 1 {
 			for _, l := range lookups {
@@ -252,8 +274,12 @@ func c08R3R4(c *Ctx, r *Report) {
 		return false, false
 	})
 	for i, ins := range inserts {
-		ok := len(missEdges) > 0 && DominatedBy(fn, ins, NewAvoid().AddEdge(missEdges...))
+		ok := len(missEdges) > 0 && DominatedBy(host, ins, NewAvoid().AddEdge(missEdges...))
 		r.Check("C08-R4", fmt.Sprintf("fn=(*db.changeCache).processEntry insert=receivedSeqs #%d on=miss-edge", i+1), c.Pos(ins.Pos()), ok, "insert only when not already received", "insertion into receivedSeqs is not restricted to the not-found edge of the membership test")
+	}
+	isConstBool := func(v ssa.Value, want bool) bool {
+		k, ok := unwrapLoadFree(v).(*ssa.Const)
+		return ok && k.Value != nil && k.Value.String() == fmt.Sprint(want)
 	}
 	var sinks []ssa.CallInstruction
 	sinks = append(sinks, adds...)
@@ -268,34 +294,54 @@ func c08R3R4(c *Ctx, r *Report) {
 		}
 	}
 	for i, s := range sinks {
-		ok := DominatedBy(fn, s, NewAvoid().AddInstr(inserts...)) && DominatedBy(fn, s, NewAvoid().AddEdge(missEdges...))
+		var ok bool
+		if host == fn {
+			ok = DominatedBy(fn, s, NewAvoid().AddInstr(inserts...)) && DominatedBy(fn, s, NewAvoid().AddEdge(missEdges...))
+		} else {
+			// honoured verdict: the sink is reached only on the helper's 'not a duplicate' edge, and the helper says so only after
+			// the miss edge and the insertion
+			ok = len(notDup) > 0 && DominatedBy(fn, s, NewAvoid().AddEdge(notDup...))
+			for _, ret := range Returns(host) {
+				if isConstBool(ret.Results[0], true) {
+					continue
+				}
+				if !(DominatedBy(host, ret, NewAvoid().AddInstr(inserts...)) && DominatedBy(host, ret, NewAvoid().AddEdge(missEdges...))) {
+					ok = false
+				}
+			}
+		}
 		r.Check("C08-R4", fmt.Sprintf("fn=(*db.changeCache).processEntry sink=%s #%d after=dup-check", CalleeIdent(s), i+1), c.Pos(s.Pos()), ok,
 			"dominated by receivedSeqs miss-edge and insert", "an entry can be cached or buffered without passing the duplicate check: a redelivered sequence would be forwarded twice")
 	}
 	// WasSkipped edge
-	ws := c.Calls(fn, false, nameIs("(*db.changeCache).WasSkipped"))
+	ws := c.Calls(host, false, nameIs("(*db.changeCache).WasSkipped"))
 	if len(ws) == 0 {
 		r.Fail("C08-R4", "fn=(*db.changeCache).processEntry call=WasSkipped", c.Pos(fn.Pos()), "below-nextSequence duplicates are no longer distinguished from late arrivals (WasSkipped check missing)")
 	}
 	for i, w := range ws {
 		wv := valueOfCall(w)
-		pos, neg := EdgesOnValue(fn, func(v ssa.Value) bool { return v == wv })
+		pos, neg := EdgesOnValue(host, func(v ssa.Value) bool { return v == wv })
 		construct := fmt.Sprintf("fn=(*db.changeCache).processEntry call=WasSkipped #%d", i+1)
 		if len(pos) == 0 {
 			r.Fail("C08-R4", construct, c.Pos(w.Pos()), "result of WasSkipped does not decide a branch")
 			continue
 		}
-		isSink := func(in ssa.Instruction) bool {
-			for _, s := range sinks {
-				if in == ssa.Instruction(s) {
-					return true
+		// "goes on to be processed": reaches a sink (check in processEntry) or reaches a 'not a duplicate' verdict (check in a helper)
+		goesOn := func(in ssa.Instruction) bool {
+			if host == fn {
+				for _, s := range sinks {
+					if in == ssa.Instruction(s) {
+						return true
+					}
 				}
+				return false
 			}
-			return false
+			ret, ok := in.(*ssa.Return)
+			return ok && !isConstBool(ret.Results[0], true)
 		}
-		// skipped (true) edge must be able to reach a sink; not-skipped (false) edge must not.
-		okPos := ReachFrom(pos[0].To(), 0, isSink, nil) != nil
-		okNeg := ReachFrom(neg[0].To(), 0, isSink, nil) == nil
+		// skipped (true) edge must be able to go on; not-skipped (false) edge must not.
+		okPos := ReachFrom(pos[0].To(), 0, goesOn, nil) != nil
+		okNeg := ReachFrom(neg[0].To(), 0, goesOn, nil) == nil
 		r.Check("C08-R4", construct, c.Pos(w.Pos()), okPos && okNeg, "skipped ⇒ processed as late arrival; not skipped ⇒ ignored as duplicate",
 			fmt.Sprintf("late-arrival/duplicate split is wrong: skipped-edge reaches cache=%v, not-skipped-edge avoids cache=%v", okPos, okNeg))
 	}
